@@ -33,6 +33,7 @@ def run(ctx):
     ctx.rule("static-key-constant", "HandshakeState.s has no writer after construction")
     ctx.trust("rustc MIR; snowfacts; effect analysis (may-write over-approximation)")
     ctx.assume("foreign Cipher/Dh/Random implementations are outside the analysed program")
+    ctx.rule("role-index", "set_receiving_nonce addresses the receiving cipher state and write_message the sending one, for both roles")
     for cfg in ctx.cfgs:
         F = ctx.facts[cfg]
         E = ctx.eff(cfg)
@@ -42,6 +43,10 @@ def run(ctx):
         nonce.check_rekey_not_overridden(ctx, cfg)
         ctx.floor("n-writers", nonce.check_n_writers(ctx, cfg), 5, cfg)
         ctx.floor("n-set-callers", nonce.check_n_setter_callers(ctx, cfg), 5, cfg)
+        # the application-controlled setter may only touch the *receiving* counter: were it to address the sending
+        # cipher state (for some role or pattern), the next write would encrypt under an already used nonce
+        from . import roles
+        ctx.floor("role-index", roles.check_transport_roles(ctx, cfg, ops_filter={"set_receiving_nonce", "write_message"}, kinds=("stateful",)), 4, cfg)
         # (1) encrypt is always followed by the increment
         k = 0
         for (fn, bi, t, kind) in cipher_calls(F):
